@@ -282,6 +282,11 @@ class SyntaxCheckInstance(Visitor):
         self._visit_expr(stmt.cond, ctx)
         ift_env = self._visit_block(stmt.ift, ctx)
         iff_env = self._visit_block(stmt.iff, ctx)
+        if ift_env.terminated != iff_env.terminated:
+            # a name introduced in one arm only is not accessible afterwards,
+            # even when the other arm returns: the definition analysis has
+            # no definition for it
+            return ctx.env.merge(ift_env.merge(iff_env))
         return ift_env.merge(iff_env)
 
     def _visit_while(self, stmt: WhileStmt, ctx: _Ctx):
